@@ -83,15 +83,20 @@ CLAIMED.update({
             "(catch-up, wrap) + schedule correspondence of the real code with monotonicity/freshness oracles incl. jumps across the 16-bit wrap and readers that skip >= 16384 publications",
             "Machine-checked: C03_monotone_RA and C03_later_call_never_older (same quantification as C02_RA: every safe configuration, every schedule, every release/acquire-legal read "
             "choice, crashes, restarts, fewer than 32767 write() calls: the publication numbers one reader obtains never decrease), C03_cache_changes_only_on_accept, C03_accept_condition. "
-            "PARTIAL: the second half (a call with an idle writer returns the most recent completed publication, up to the documented 32767 exception) is checked on every explored SC "
-            "schedule (model = implementation, oracle on the implementation, incl. the exception class) and on computed examples, not yet proved for all SC executions.",
+            "Second half: C03_fresh_when_idle - for every reachable state (any schedule, any legal read choices before the call, crashes, restarts, readers attached at any time, any "
+            "number of publications: no bound, the 16-bit wrap included), if the latest generation event is the even store of write() call a (no update in flight) and the reader is "
+            "between calls, a call that executes sequentially consistently while the writer does nothing returns within cells+4 accesses the record of call a, and serves the cache only "
+            "when the live generation equals the cached one (the documented exception, shown real by C03_exception_witness); C03_latest_even_is_newest, "
+            "C03_idle_segment_holds_latest_record, C03_reachable_invariant_unbounded. Freshness is stated for sequentially consistent calls (release/acquire alone gives no real-time "
+            "guarantee without a happens-before edge from the publication to the call); an update racing with the call is covered by monotonicity only.",
             SHM_NOTE, "DESIGN.md section 6, C03"),
     "C04": ("Coq proof of header-validity preservation under every writer step/crash/restart, in-place take-over, adoption of an odd generation, generation never 0 + schedule "
             "correspondence with crash at every access and restart through the real ShmWriter::new",
             "Machine-checked: C04_valid_step, C04_crash_stores_nothing, C04_takeover_in_place (the only store of a restart over a valid segment is version := 1), "
             "C04_adopts_odd_generation, C04_generation_never_zero, computed examples (death during the first publication; death mid-update with an attached reader). "
             "Clause (a) (only complete records, in publication order, across any crash/restart pattern) is C02_RA + C03_monotone_RA, whose schedules include crash and restart tokens at "
-            "every access; clause (b) (later publications seen without reopening) is checked on every explored crash schedule and in the computed examples.",
+            "every access; clause (b): C04_restarted_publications_seen (C03_fresh_when_idle over schedules with crash/restart tokens: the attached reader's next call after a completed "
+            "publication of the restarted writer returns it) and C04_never_emptied_under_clients (header valid in every reachable state with an attached reader, unbounded).",
             SHM_NOTE + " Crash inside ShmWriter::new/wipe (file creation) is covered by the C16 file corpus, not by the scheduler.", "DESIGN.md section 6, C04"),
     "C18": ("Coq proof (strictly decreasing Z-valued measure over reader steps, for every log and every choice at every step) + measured retry budget on the running code "
             "(stalled writer / continuously publishing writer) + schedule correspondence",
